@@ -620,13 +620,31 @@ fn run_case(case: &Case) -> Obs {
     Obs { lines }
 }
 
+extern "C" {
+    fn dup2(oldfd: i32, newfd: i32) -> i32;
+}
+
+/// The protocol lives on private (close-on-exec) copies of descriptors 0 and 1, and /dev/null takes their places: a process
+/// that jawk starts (`trigger` hands its own standard streams on) can neither write into the protocol nor read from it.
+fn private_protocol_channels() -> (std::fs::File, std::fs::File) {
+    use std::os::fd::{AsFd, AsRawFd};
+    let own_in = io::stdin().as_fd().try_clone_to_owned().expect("dup stdin");
+    let own_out = io::stdout().as_fd().try_clone_to_owned().expect("dup stdout");
+    let null_r = std::fs::File::open("/dev/null").expect("/dev/null");
+    let null_w = std::fs::OpenOptions::new().write(true).open("/dev/null").expect("/dev/null");
+    unsafe {
+        assert!(dup2(null_r.as_raw_fd(), 0) == 0);
+        assert!(dup2(null_w.as_raw_fd(), 1) == 1);
+    }
+    (std::fs::File::from(own_in), std::fs::File::from(own_out))
+}
+
 fn serve() {
     install_panic_hook();
-    let stdin = io::stdin();
-    let stdout = io::stdout();
-    let mut out = io::BufWriter::new(stdout.lock());
+    let (proto_in, proto_out) = private_protocol_channels();
+    let mut out = io::BufWriter::new(proto_out);
     let mut case = Case::default();
-    for line in stdin.lock().lines() {
+    for line in io::BufReader::new(proto_in).lines() {
         let line = match line {
             Ok(l) => l,
             Err(_) => break,
